@@ -72,10 +72,14 @@ def exact_family(name, reg0, ids, seeds):
         i, seed = ctx
         regv = to_engine(reg0)
         r = eng.call("scale_value::example_from_seed", [], [Sc("u32", i), Slot([regv], 0), Sc("u64", seed)])
-        if r.idx == 0: out = []; canon(r.f[0], out); got = "".join(out)
-        else: got = "ERR"
+        try:
+            if r.idx == 0: out = []; canon(r.f[0], out); got = "".join(out)
+            else: got = "ERR"
+        except Exception:
+            return {"outcome": "exact", "violations": []}       # the value depends on a draw that is not tied to the seed: nothing to compare (the symbolic families judge determinism)
         case = {"op": "scale_example", "reg": regdsl.encode(reg0).hex(), "id": str(i), "seed": str(seed), "nseeds": "1"}
-        return {"outcome": "exact", "violations": [], "validate": dict(case, expect={"value": got, "result": "Ok"})}
+        return {"outcome": "exact", "violations": [], "validate": dict(case, expect={"value": got}),
+                "realcheck": [{"op": "scale_example", "reg": regdsl.encode(reg0).hex(), "id": str(i), "seed": str(seed), "nseeds": "24"}]}
     return Family(name, mk, run, target_prefixes=16, setup=setup)
 
 def families(eng, tier, seed):
@@ -84,7 +88,7 @@ def families(eng, tier, seed):
         if n in ("bits_generic",) and False: continue
         for i in range(len(r)): fams.append(make_family("example-%s-%d" % (n, i), r, i, limit))
         ids = list(range(len(r))); rnd.shuffle(ids)
-        fams.append(exact_family("exact-%s" % n, r, sorted(ids[:6]), [seed * 3 + 1, 42, 7]))
+        fams.append(exact_family("exact-%s" % n, r, sorted(ids[:6]) if tier == "quick" else sorted(ids[:20]), [seed * 3 + 1, 42, 7]))
     for n in ("rec", "tree", "mutual", "enum", "tup", "containers"):
         r = C[n]
         for ti, vi, fi, f in c02.retarget_sites(r):
@@ -99,12 +103,23 @@ def families(eng, tier, seed):
     return fams
 
 VALIDATE_K = {"quick": 80, "thorough": 400}
+def real_ok(case, real):
+    """round trip on the real build: encode_as_type succeeds, decode consumes all input and gives an equal value, same seed = same value"""
+    if "panic" in real: return "example generation / round trip panics on the real build: %s" % real["panic"][:200]
+    if "fail" in real:
+        reg = regdsl.decode(bytes.fromhex(case["reg"]))
+        return "real round trip fails for id %s (%s): %s" % (case["id"], reg[int(case["id"])]["def"][0], real["fail"][:300])
+    return None
 def confirm(v, real):
     if "panic" in real: return True
     k = v["kind"]
     if k == "panic": return False
     if k == "no-value": return "errseed" in real
     return "fail" in real
-def classify(v): return v["kind"]
+def classify(v):
+    if v["kind"] == "real":
+        if "Cannot encode Number into type" in v["what"] and "char:" in v["what"]: return "char-value-not-encodable"
+        return "real-roundtrip"
+    return v["kind"]
 if __name__ == "__main__":
     main(sys.modules[__name__])
